@@ -588,6 +588,9 @@ def run(pid, tier, seed, res, only=None):
                 src = case["ops"][op["from_cache"]]
                 # same selection, and the same arguments or a prefix of them (omitted arguments come from the file)
                 same_sel = all(src[k] == op[k] for k in ("target", "exclude", "root", "cache_deps_of", "run_debug")) and src["args"][:len(op["args"])] == op["args"]
+                # (a caching run that was itself a restart may have mixed cached results with other arguments: its
+                #  value is then not what a run on its own arguments computes, and says nothing about this restart)
+                same_sel = same_sel and src.get("from_cache") is None
                 if o["status"] == "raise":
                     res.hit("C18", "monitor", "restart from the cache file raised %s" % o["error"], dict(base, kind="monitor", op_index=oi))
                 elif same_sel and not o.get("cache_src_overwritten") and o["value"] != o.get("cache_src_value"):
